@@ -90,6 +90,7 @@ push_grow24 = dict(
     funcs=[GROW_FUNC], harness='  IV* v; value_type x; IV_push_back(v, x);', cbmc=['--unwind', '26', '--unwinding-assertions'], snapshot=[('size', 'self->_size'), ('cap', 'self->_capacity'), ('k', 'g_k'), ('value', 'value')], replay=dict(template='iv.cpp', op='push_back'),
     variants=[dict(name='cap24', tier='thorough', defs=['HEAP_MIN=24', 'HEAP_MAX=24'])],
     bounded=dict(bound='capacity exactly 24 (the first heap buffer), loops unwound 26 times', form='a'),
+    no_crosscheck=True,   # minisat needs > 15 min on this 6 GB unwinding (cadical: 64 s); the loop-contract unit IV.push_back[grow] is cross-checked
     dropped=['template instantiated at <uint32_t, 12>'], trusted=['operator new[] = malloc assumed non-null'], min_obligations=10, timeout=900)
 
 index = dict(
